@@ -219,6 +219,7 @@ def obligations(tier: str) -> List[Obligation]:
         'second-qu': {'cached': ['P1'], 'second_type': DNSQuestionType.QU},
         'heard-knows-less': {'cached': ['P1'], 'first': 'heard', 'heard_known': []},
         'heard-knows-more': {'cached': ['P1'], 'first': 'heard', 'heard_known': ['P1', 'P2']},
+        'heard-knows-the-same': {'cached': ['P1'], 'first': 'heard', 'heard_known': ['P1']},
         'heard-but-not-responder': {'cached': ['P1'], 'first': 'heard-no-service', 'heard_known': []},
     }
     if tier == 'thorough':
